@@ -167,7 +167,12 @@ func (n *Node) InitChain(spec *GenesisSpec) {
 	appState := BuildGenesis(n.App, spec)
 	var vals []abci.ValidatorUpdate
 	// InitChain validators come from staking's InitGenesis result; pass none.
-	cp := simtestutil.DefaultConsensusParams
+	// consensus params as CometBFT's default genesis has them (no block gas limit)
+	cp := &cmtproto.ConsensusParams{
+		Block:     &cmtproto.BlockParams{MaxBytes: 22020096, MaxGas: -1},
+		Evidence:  simtestutil.DefaultConsensusParams.Evidence,
+		Validator: simtestutil.DefaultConsensusParams.Validator,
+	}
 	ih := spec.InitialHeight
 	if ih <= 0 {
 		ih = 1
